@@ -41,3 +41,32 @@ package gomatrixserverlib
 //@   loop 3: invariant 0 <= idx(3) && idx(3) <= len(levelChecks)
 //@   loop 3: invariant forall j int :: 0 <= j && j < idx(3) ==> levelOK(senderLevel, levelChecks[j].old, levelChecks[j].new)
 //@   assigns nothing
+
+//@ func checkUserLevels
+//@   property C08
+//@   ensures users-new: err == nil ==> (forall u string :: u in newPowerLevels.Users ==> userOK(senderLevel, senderID, u, oldPowerLevels, newPowerLevels))
+//@   ensures users-old: err == nil ==> (forall u string :: u in oldPowerLevels.Users ==> userOK(senderLevel, senderID, u, oldPowerLevels, newPowerLevels))
+//@   ensures complete: (forall u string :: (u in newPowerLevels.Users || u in oldPowerLevels.Users) ==> userOK(senderLevel, senderID, u, oldPowerLevels, newPowerLevels)) ==> err == nil
+//@   loop 1: invariant forall u string :: u in userLevelChecks ==> (userLevelChecks[u].old == UL(oldPowerLevels, u) && userLevelChecks[u].new == UL(newPowerLevels, u) && (u in newPowerLevels.Users || u in oldPowerLevels.Users))
+//@   loop 1: invariant forall u string :: seen(1)[u] ==> u in userLevelChecks
+//@   loop 2: invariant forall u string :: u in userLevelChecks ==> (userLevelChecks[u].old == UL(oldPowerLevels, u) && userLevelChecks[u].new == UL(newPowerLevels, u) && (u in newPowerLevels.Users || u in oldPowerLevels.Users))
+//@   loop 2: invariant forall u string :: u in newPowerLevels.Users ==> u in userLevelChecks
+//@   loop 2: invariant forall u string :: seen(2)[u] ==> u in userLevelChecks
+//@   loop 3: invariant forall u string :: seen(3)[u] ==> userOK(senderLevel, senderID, u, oldPowerLevels, newPowerLevels)
+//@   assigns nothing
+
+//@ func checkPowerLevelEventV1
+//@   property C08
+//@   ensures nil: err == nil
+//@   assigns nothing
+
+//@ func checkPowerLevelEventV2
+//@   property C08
+//@   ensures notifications-new: err == nil ==> (forall n string :: n in newPowerLevels.Notifications ==> levelOK(UL(oldPowerLevels, sender), NL(oldPowerLevels, n), NL(newPowerLevels, n)))
+//@   ensures notifications-old: err == nil ==> (forall n string :: n in oldPowerLevels.Notifications ==> levelOK(UL(oldPowerLevels, sender), NL(oldPowerLevels, n), NL(newPowerLevels, n)))
+//@   loop 1: invariant forall n string :: seen(1)[n] ==> hasPair(notificationLevelChecks, NL(oldPowerLevels, n), NL(newPowerLevels, n))
+//@   loop 2: invariant forall n string :: n in newPowerLevels.Notifications ==> hasPair(notificationLevelChecks, NL(oldPowerLevels, n), NL(newPowerLevels, n))
+//@   loop 2: invariant forall n string :: seen(2)[n] ==> hasPair(notificationLevelChecks, NL(oldPowerLevels, n), NL(newPowerLevels, n))
+//@   loop 3: invariant 0 <= idx(3) && idx(3) <= len(notificationLevelChecks)
+//@   loop 3: invariant forall j int :: 0 <= j && j < idx(3) ==> (notificationLevelChecks[j].old == notificationLevelChecks[j].new || (notificationLevelChecks[j].new <= senderLevel && notificationLevelChecks[j].old < senderLevel))
+//@   assigns nothing
